@@ -47,6 +47,9 @@ meta = {'name': name, 'breaks_property': name.split('-')[0],
                       'demo_exit_on_changed': int(d1)},
         'checks_run': {'tier': tier, 'properties': props,
                        'reported_violation': caught.split()},
+        'applies_to_repo_commit': __import__('subprocess').check_output(
+            ['git', '-C', '/repo', 'rev-parse', '--short', 'HEAD'],
+            text=True).strip(),
         'how': 'tools/eval_seed.sh (scratch worktree of /repo HEAD, patch applied, '
                'PYTHONPATH=<wt>/src pytest; VQ_REPO=<wt> ./check <prop> <tier>)'}
 json.dump(meta, open(f'/verif/seeded/{name}/meta.json', 'w'), indent=1, ensure_ascii=False)
